@@ -24,6 +24,7 @@ C01_CORRUPT=status|literal|drop (binding demonstration: corrupt one recorded cas
 '''
 import json
 import os
+import re
 import shutil
 
 from pv import core, sem
@@ -41,7 +42,7 @@ def _hooks():
 
 def _export(psyir):
     r = sem.routine_named(psyir, "s")
-    return Exporter(hooks=_hooks()).routine(r)
+    return Exporter(hooks=_hooks(), functions=True).routine(r)
 
 
 def _codeblocks(psyir):
@@ -63,6 +64,38 @@ def _decl_change(ref_decls, new_decls):
         elif o["ty"] != d["ty"] or o["dims"] != d["dims"] or o["init"] != d["init"]:
             return d["name"]
     return None
+
+
+_RE_ROUTINE = re.compile(
+    r"^\s*((?:(?:pure|impure|elemental|recursive|module|integer|real|logical|double\s+precision)"
+    r"(?:\s*\([^)]*\))?\s+)*)(function|subroutine)\s+(\w+)\s*(?:\(([^)]*)\))?\s*"
+    r"(?:result\s*\(\s*(\w+)\s*\))?\s*$", re.I)
+_RE_LABEL = re.compile(r"^\s*(\w+)\s*:\s*(?:do|if|select|block|associate)\b", re.I)
+_RE_XREF = re.compile(r"\b(?:exit|cycle)\s+(\w+)\s*$", re.I)
+
+
+def text_interface(text):
+    '''Projection of a Fortran text (scanned here, independently of PSyclone's
+    lenient reader): the routines it declares - name, kind, prefixes, number of
+    dummies, RESULT name - and the construct names it defines / refers to.'''
+    routines, defs, refs = [], [], []
+    for line in text.splitlines():
+        line = line.split("!")[0].rstrip()
+        m = _RE_ROUTINE.match(line)
+        if m and not line.strip().lower().startswith("end"):
+            pre = m.group(1).lower().split()
+            args = [a for a in (m.group(4) or "").split(",") if a.strip()]
+            routines.append({"name": m.group(3).lower(), "kind": m.group(2).lower(),
+                             "elemental": "elemental" in pre, "pure": "pure" in pre,
+                             "nargs": len(args), "result": (m.group(5) or "").lower()})
+            continue
+        m = _RE_LABEL.match(line)
+        if m:
+            defs.append(m.group(1).lower())
+        m = _RE_XREF.search(line)
+        if m:
+            refs.append(m.group(1).lower())
+    return {"routines": routines, "defs": sorted(set(defs)), "refs": sorted(set(refs))}
 
 
 def pipeline(prog, text=None):
@@ -114,8 +147,13 @@ def make_case(prog, rec):
     if rec["status"] != "ok":
         case["dom"], case["fills"] = [], [1]
         return case
+    # what the original and the written text declare (decided by the spec's
+    # static clauses even when the programs cannot be exported)
+    case["siface"] = G.interface(prog.body)
+    wi = text_interface(rec["written"])
+    case["wiface"], case["wdefs"], case["wrefs"] = wi["routines"], wi["defs"], wi["refs"]
     if rec["p1"] is None:
-        return None
+        return case
     decls = ref["decls"]
     for role, v in (("Reader", rec["p1"]), ("Writer", rec["p2"])):
         if v is None:
@@ -126,7 +164,11 @@ def make_case(prog, rec):
             case["changed"] = bad
             case["dom"], case["fills"] = [], [1]
             return case
-        decls = sem.merge_decls(decls, v["decls"])
+        try:
+            decls = sem.merge_decls(decls, v["decls"])
+        except Unsupported as err:
+            rec["unsupported"] = f"case ({role}): " + str(err)[:200]
+            break
         case["progs"].append({"role": role, "body": v["body"], "subs": v["subs"] or NOSUB})
     case["decls"] = decls
     return case
@@ -289,6 +331,66 @@ def m_where_nested(rec, clause, detail, finding):
     return False
 
 
+def m_prefix_mixed_case(rec, clause, detail, finding):
+    '''an ELEMENTAL function whose name is written with upper-case letters is
+    written without the prefix'''
+    if clause != "WriterKeepsElemental":
+        return False
+    names = detail.get("names") or []
+    return bool(names) and all(
+        nm in G.HELPERS and "elemental" in G.HELPERS[nm]["prefix"] and
+        G.HELPERS[nm]["disp"] != G.HELPERS[nm]["disp"].lower() for nm in names)
+
+
+def _bodies(body):
+    '''every statement list of a program'''
+    yield body
+    for s in body:
+        for key in ("body", "then", "else"):
+            if isinstance(s.get(key), list):
+                yield from _bodies(s[key])
+        for c in s.get("cases", []):
+            yield from _bodies(c["body"])
+        for ew in s.get("elsewhere", []):
+            yield from _bodies(ew["body"])
+
+
+def m_select_default_only(rec, clause, detail, finding):
+    '''a SELECT CASE whose only clause is CASE DEFAULT follows, in the same
+    block, a statement kept as a CodeBlock (here: a WHERE the reader does not
+    lower): the default body is placed before the CodeBlock'''
+    if clause != "ReaderSameObservable":
+        return False
+    lowered = [id(w) for w in _lowered_wheres(rec)]
+    for body in _bodies(rec["prog"]):
+        for pos, s in enumerate(body):
+            if s["k"] == "select" and len(s["cases"]) == 1 and s["cases"][0]["dflt"] and \
+                    any(q["k"] == "where" and id(q) not in lowered for q in body[:pos]):
+                return True
+    return False
+
+
+def m_do_concurrent_mask(rec, clause, detail, finding):
+    '''DO CONCURRENT with a mask: read as a plain loop over all iterations'''
+    return clause == "ReaderSameObservable" and any(
+        nd.get("k") == "loop" and nd.get("concurrent") for nd in G.walk(rec["prog"]))
+
+
+def m_construct_name_case(rec, clause, detail, finding):
+    '''EXIT / CYCLE spells the construct name in a different case than the DO
+    statement: the loop is written without its name, the EXIT keeps it'''
+    if clause != "WrittenConstructNamesDefined":
+        return False
+    labels = {nd["label"] for nd in G.walk(rec["prog"])
+              if nd.get("k") in ("loop", "while") and nd.get("label")}
+    refs = {nd["label"] for nd in G.walk(rec["prog"])
+            if nd.get("k") in ("exit", "cycle") and nd.get("label")}
+    names = set(detail.get("names") or [])
+    return bool(names) and all(
+        any(r.lower() == nm for r in refs) and nm not in {l for l in labels if l in refs}
+        and any(l.lower() == nm and l not in refs for l in labels) for nm in names)
+
+
 def _pow_left_nested(body):
     for nd in G.walk(body):
         if nd.get("k") == "bin" and nd["op"] == "**" and nd["l"].get("k") == "bin" \
@@ -309,6 +411,10 @@ MATCHERS = {"where-nonunit-lower-bound": m_where_lower_bound,
             "where-section-stride-ignored": m_where_stride,
             "where-loop-carried-read": m_where_carried,
             "where-nested-runs-over-all-elements": m_where_nested,
+            "elemental-prefix-lost-for-mixed-case-name": m_prefix_mixed_case,
+            "default-only-select-moved-before-codeblock": m_select_default_only,
+            "do-concurrent-mask-dropped": m_do_concurrent_mask,
+            "construct-name-lost-on-case-mismatch": m_construct_name_case,
             "left-nested-power-unparenthesised": m_pow_left}
 
 
@@ -319,14 +425,7 @@ def check_programs(out, progs, recs, batch=400, workers=None):
     cases, by_id, unsupported = [], {}, []
     for p, rec in zip(progs, recs):
         by_id[p.pid] = (p, rec)
-        try:
-            case = make_case(p, rec)
-        except Unsupported as err:
-            rec["unsupported"] = "case: " + str(err)[:200]
-            case = None
-        if case is None:
-            unsupported.append({"id": p.pid, "why": rec["unsupported"]})
-            continue
+        case = make_case(p, rec)
         if rec["unsupported"]:
             unsupported.append({"id": p.pid, "why": rec["unsupported"]})
         cases.append(case)
@@ -352,10 +451,15 @@ def check_programs(out, progs, recs, batch=400, workers=None):
         for cl in sorted({f[0] for f in fails}):
             wit = [f[1] for f in fails if f[0] == cl]
             slim = {"id": cid, "source": rec["source"], "written": rec["written"],
-                    "prog": G.strip(p.body), "error": rec.get("err")}
+                    "prog": p.body, "error": rec.get("err")}
             detail = {"n_failing_inputs": len(wit), "witnesses": wit[:4],
                       "names": sorted({n for w in wit for n in w.get("names", [])})}
             out.violation(slim, cl, detail)
+    # a lost PURE prefix keeps the program valid and its behaviour: divergence only
+    pure_lost = sorted({f"{c['id']}:{r['name']}" for c in cases if "wiface" in c
+                        for r in c["siface"] if r["pure"] and
+                        any(w["name"] == r["name"] and not w["pure"] and not w["elemental"]
+                            for w in c["wiface"])})
     examples = {}
     for fid, ex in out.known_examples.items():
         c = ex["case"]
@@ -374,7 +478,8 @@ def check_programs(out, progs, recs, batch=400, workers=None):
             "inputs": ninputs, "discarded_ub_inputs": sum(res.discards.values()),
             "failing_cases": len(res.fails), "status_counts": status,
             "unsupported": len(unsupported), "unsupported_samples": unsupported[:8],
-            "codeblocks_kept": cb, "known_examples": examples, "exhaustive": False, "divergences": 0,
+            "codeblocks_kept": cb, "known_examples": examples, "exhaustive": False, "divergences": len(pure_lost),
+            "divergence_samples": [{"pure prefix not written": x} for x in pure_lost[:5]],
             "tlc_wall_s": round(res.wall, 1),
             "samples": [{"id": c["id"], "source": by_id[c["id"]][1]["source"],
                          "written": by_id[c["id"]][1]["written"]}
